@@ -48,6 +48,7 @@ structure SqlxSt where
   insts : List (Nat × SqlInst) := []
   next  : Nat := 1
   dead  : Bool := false
+  n     : Nat := 0          -- lines of this section seen so far
 
 def SqlxSt.get (s : SqlxSt) (k : Nat) : SqlInst := ((s.insts.find? fun p => p.1 == k).map (·.2)).getD {}
 def SqlxSt.set (s : SqlxSt) (k : Nat) (i : SqlInst) : SqlxSt :=
@@ -125,6 +126,10 @@ def sqlxLine (max : Int) (hook : Bool) (sec : Nat) (acc : Report × SqlxSt) (l :
   let impl := joinSp l.obs
   r := r.addCover ("sqlx-op-" ++ l.op.headD "?")
   if s.dead then return (r, s)
+  if impl = "stuck" then
+    if s.n = 0 then return (r.addCover "sqlx-skipped-after-a-wedged-executor", { s with dead := true })
+    return (r.violation sec l.idx s!"sqlx BulkInserter: {" ".intercalate l.op}: the call never returns (every goroutine is parked: the executor is wedged) — Insert / Flush / Wait must come back, Wait when every accepted row has been handed to Exec", { s with dead := true })
+  let s := { s with n := s.n + 1 }
   let bad := (r.mismatch sec l.idx "a known op" impl, { s with dead := true })
   match l.op with
   | [op, ks] | [op, ks, _] =>
@@ -197,7 +202,13 @@ def sqlxLine (max : Int) (hook : Bool) (sec : Nat) (acc : Report × SqlxSt) (l :
     if i.gate then return skip "behind-gate"
     match op with
     | "flush" | "upd" =>
-      if impl ≠ "ok" then r := r.mismatch sec l.idx "ok" impl
+      -- "on an explicit Flush": when Flush has returned (when the fn of UpdateOrDelete runs) nothing is pending
+      let c := kvInt l.obs "c" 0
+      if c > 0 then
+        r := r.violation sec l.idx s!"sqlx BulkInserter: {c} rows are still pending in the inserter {if op = "flush" then "after Flush has returned" else "when the fn of UpdateOrDelete runs"}: an explicit Flush must hand every accepted row to Exec"
+      if c < 0 then
+        r := r.violation sec l.idx "sqlx BulkInserter: UpdateOrDelete did not run fn"
+      if impl ≠ "ok c=0" then r := r.mismatch sec l.idx "ok c=0" impl
       if i.c.values.len > 0 then r := r.addCover "sqlx-flush-takes-partial-batch"
       return (r, s.set k i.flush)
     | "hand" | "handp" =>
